@@ -209,6 +209,13 @@ class Twin:
             return self.fn_hostile_history(ctx, maxsize)
         gA = self.decorate(fAd if cfg.get('fdefault') else fA, maxsize)
         gB = self.decorate(fBd if cfg.get('fdefault') else fB, maxsize)
+        if cfg.get('preload') and cfg['backend'] != 'none':
+            # both twins start with an entry that a bulk load() put into memory (also for maxsize=0 caches)
+            x0 = ctx.atom(ArgSort, 'x')
+            for gg in (gA, gB):
+                c0 = gg.__cache__()
+                c0.archive[gg.key(x0)] = ctx.apply('F', [x0])
+                gg.load()
         N = cfg['N']
         P = {'raise': 'C16', 'probe': 'C18', 'pickle': 'C20'}[sc]
         atoms = []
@@ -459,6 +466,8 @@ def plan(prop, tier):
             kw['name'] += '/paused'
         if kw.get('fdefault'):
             kw['name'] += '/float-default'
+        if kw.get('preload'):
+            kw['name'] += '/preloaded'
         if kw.get('pickle_after'):
             kw['name'] += '/after%d' % kw['pickle_after']
         if kw.get('canary'):
@@ -481,6 +490,8 @@ def plan(prop, tier):
             for km in ('raw', 'default'):
                 for b in ('none', 'cached_dict'):
                     add(scenario='hostile-history', module='safe', algo=a, backend=b, keymap=km, N=3 if q else 4)
+            for m in ('std', 'safe'):
+                add(scenario='raise', module=m, algo=a, backend='cached_dict', N=2 if q else 3, preload=True)
         add(scenario='raise', module='std', algo='lru', backend='none', N=3, canary=True)
     elif prop == 'C18':
         N = 3 if q else 4
